@@ -244,14 +244,17 @@ theorem DComp.withByteSize_okM (bs : Nat) (ps : List Param) (c : DComp) (mid : B
     by_cases hlt : c.size < bs
     · refine ⟨bsPad s.cursorByte bs s1, ?_, ?_, hcb1⟩
       · have hact : s1.cursorByte - s.cursorByte < bs := by omega
-        simp only [DComp.withByteSize, encodeDop, bind, pure, run_bind, run_getS, run_pure, hrun', run_ite, hact, if_true, run_setS, bsPad]
+        have hngt : ¬ (s1.cursorByte - s.cursorByte > bs) := by omega     -- the encoder's BYTE-SIZE check (fix W16/C) passes
+        simp only [DComp.withByteSize, encodeDop, bind, pure, run_bind, run_getS, run_pure, hrun', run_ite, hngt, if_false, hact, if_true,
+          run_setS, bsPad]
       · have hact : (c.pair.enc s).cursorByte - s.cursorByte < bs := by omega
         show SameCore _ (if (c.pair.enc s).cursorByte - s.cursorByte < bs then bsPad s.cursorByte bs (c.pair.enc s) else c.pair.enc s)
         rw [if_pos hact]
         exact bsPad_sameCore _ _ _ _ hcore
     · refine ⟨s1, ?_, ?_, hcb1⟩
       · have hact : ¬ (s1.cursorByte - s.cursorByte < bs) := by omega
-        simp only [DComp.withByteSize, encodeDop, bind, pure, run_bind, run_getS, run_pure, hrun', run_ite, hact, if_false]
+        have hngt : ¬ (s1.cursorByte - s.cursorByte > bs) := by omega
+        simp only [DComp.withByteSize, encodeDop, bind, pure, run_bind, run_getS, run_pure, hrun', run_ite, hngt, hact, if_false]
       · have hact : ¬ ((c.pair.enc s).cursorByte - s.cursorByte < bs) := by omega
         show SameCore _ (if (c.pair.enc s).cursorByte - s.cursorByte < bs then bsPad s.cursorByte bs (c.pair.enc s) else c.pair.enc s)
         rw [if_neg hact]
